@@ -59,9 +59,40 @@ def units(tier):
             obs.append(Obligation(f"{PROP}/SwitcherSchedule/construction_assigns_nothing_else", ctx,
                                   not ctx.ghost.heap_writes and not ctx.ghost.module_writes))
         return obs
+    def parsed(ip, ctx):
+        # a schedule listed by a device: its reported duration is that of its own reported start and end
+        from . import c10
+        from .common import sym_bytes
+        k = 2
+        r = sym_bytes(ctx, "r", 49 + 16 * k)
+        ctx.assume(ip.truth(c10.sp(ip, "wf_schedules_reply", [r, k], ctx), ctx))
+        ob = outcome_of(lambda: ip.call_function(func(c10.SP + "get_schedules"), [r], {}, ctx))
+        obs = [Obligation(f"{PROP}/listed_schedule/parses", ctx, ob[0] == "ret" and getattr(ob[1], "deferred", None) is not None
+                          and len(ob[1].deferred.items) == k)]
+        if obs[0].goal:
+            for j, (o, kept) in enumerate(ob[1].deferred.items):
+                want = ip.call_function(func("spec.duration_spec"), [o.attrs.get("start_time"), o.attrs.get("end_time")], {}, ctx)
+                obs.append(Obligation(f"{PROP}/listed_schedule/record[{j}]/duration_is_of_its_own_times", ctx,
+                                      ip.equals(o.attrs.get("duration"), want, ctx)))
+        return obs
     return {"calc_duration": Unit("calc_duration", PROP, fn, functions=[Q], witness=wit),
+            "listed_schedule": Unit("listed_schedule", PROP, parsed, functions=["aioswitcher.schedule.parser.get_schedules",
+                                                                               "aioswitcher.schedule.parser.SwitcherSchedule.__post_init__"]),
             "schedule_duration": Unit("schedule_duration", PROP, sched, functions=["aioswitcher.schedule.parser.SwitcherSchedule.__post_init__"]),
             "_canary": Unit("_canary", PROP, canary)}
+
+
+def interp_for(unit):
+    from pyvc.engine import make_interp
+    if unit.name == "listed_schedule":
+        from . import c10
+        from pyvc import schedmodel
+        c = c10.contracts()
+        c.pop("aioswitcher.schedule.tools.calc_duration", None)       # the duration computation itself is executed from its body here
+        ip = make_interp(contracts=c)
+        schedmodel.install(ip)
+        return ip
+    return make_interp()
 
 
 def replay_case(o):
@@ -79,4 +110,5 @@ def native_cases(tier, seed):
     if tier == "thorough":
         return [{"prop": PROP, "kind": "all_pairs", "inputs": {}}, {"prop": PROP, "kind": "schedules", "inputs": {"seed": seed, "n": 20000}}]
     return [{"prop": PROP, "kind": "sweep", "inputs": {"seed": seed, "n": 5000}},
-            {"prop": PROP, "kind": "schedules", "inputs": {"seed": seed, "n": 300}}]
+            {"prop": PROP, "kind": "schedules", "inputs": {"seed": seed, "n": 300}},
+            {"prop": PROP, "kind": "listed", "inputs": {"seed": seed, "n": 300}}]
